@@ -258,7 +258,7 @@ func (g *srvGen) tsChoice() uint32 {
 func (g *srvGen) opDgram() {
 	r := g.r
 	var d []byte
-	kind := r.pick([]int{45, 10, 6, 6, 6, 5, 6, 5, 4, 4, 3, 6, 2})
+	kind := r.pick([]int{45, 10, 6, 6, 6, 5, 6, 5, 4, 4, 3, 6, 2, 8})
 	forceUDP := false
 	if len(g.devs) == 0 && kind != 8 {
 		kind = 9
@@ -322,6 +322,26 @@ func (g *srvGen) opDgram() {
 			}
 		}
 		if d == nil {
+			d = mk().Serialize()
+		}
+	case 13: // a datagram sent earlier (usually an accepted report) with one bit of id, timeslot, power or signature flipped
+		if len(g.sent) > 0 {
+			d = append([]byte(nil), g.sent[r.Intn(len(g.sent))]...)
+			if len(d) >= 80 {
+				var i int
+				switch r.Intn(4) {
+				case 0:
+					i = r.Intn(32)
+				case 1:
+					i = 32 + r.Intn(32)
+				case 2:
+					i = 64 + r.Intn(64)
+				default:
+					i = 128 + r.Intn(512)
+				}
+				d[i/8] ^= 1 << uint(i%8)
+			}
+		} else {
 			d = mk().Serialize()
 		}
 	case 12: // a valid report whose signature ends in a zero byte, sent one byte short (zero padding would complete it)
@@ -506,7 +526,10 @@ func (g *srvGen) opMigrate() {
 
 func (g *srvGen) opRegister() {
 	r := g.r
-	cand := []Key{g.s.E.GCA, detKey(g.seed, 1002), detKey(g.seed, 1003)}[r.pick([]int{70, 15, 15})]
+	// the last candidate is the all-zero key (nobody can sign for it, but the temporary key can register it:
+	// it is then the GCA key for good, also across restarts)
+	zeroCand := Key{Priv: detKey(g.seed, 1004).Priv}
+	cand := []Key{g.s.E.GCA, detKey(g.seed, 1002), detKey(g.seed, 1003), zeroCand}[r.pick(map[bool][]int{true: {70, 13, 12, 5}, false: {50, 10, 10, 30}}[g.regDone || (g.focus != "C07" && g.focus != "C05" && g.focus != "C04")])]
 	gr := server.GCARegistration{GCAKey: cand.Pub}
 	signer := g.s.E.Temp.Priv
 	switch r.pick([]int{70, 10, 10, 10}) {
@@ -532,7 +555,7 @@ func (g *srvGen) opRegister() {
 	if g.s.Register(key, sig) == "ok" {
 		g.regDone = true
 		// the scenario's "GCA" is whoever won
-		for _, c := range []Key{g.s.E.GCA, detKey(g.seed, 1002), detKey(g.seed, 1003)} {
+		for _, c := range []Key{g.s.E.GCA, detKey(g.seed, 1002), detKey(g.seed, 1003), zeroCand} {
 			if c.Pub == key {
 				g.s.E.GCA = c
 			}
@@ -773,6 +796,33 @@ func (g *srvGen) opTear() error {
 		g.s.T.Line("srv.tear kind=gca")
 		return g.s.restartAfterStop()
 	}
+	if r.Chance(8) {
+		// one of the record logs ends inside a record (not a state a process crash can leave behind, since
+		// every record is one write call; a power cut can): every loader has to refuse such a file
+		files := []string{"equipment-authorizations.dat", "equipment-reports.dat", server.AllDeviceStatsHistoryFile}
+		rec := []int64{148, 80, 0}
+		k := r.Intn(3)
+		path := filepath.Join(dir, files[k])
+		n := fileLen(path)
+		if n > 0 {
+			if err := g.s.E.Stop(); err != nil {
+				return err
+			}
+			cut := int64(1 + r.Intn(60))
+			if rec[k] > 0 {
+				cut = int64(1 + r.Intn(int(rec[k])-1))
+			} else if r.Chance(50) {
+				cut = int64(1 + r.Intn(4)) // the last bytes of the signature
+			}
+			if cut >= n {
+				cut = 1
+			}
+			os.Truncate(path, n-cut)
+			g.s.T.Count("tear:bytes:" + files[k])
+			g.s.T.Line("srv.tear kind=bytes file=%s cut=%d", files[k], cut)
+			return g.s.restartAfterStop()
+		}
+	}
 	// crash in the middle of a start: first find out what a start appends
 	before := fileLen(filepath.Join(dir, "equipment-reports.dat"))
 	if err := g.s.Restart(); err != nil {
@@ -797,8 +847,8 @@ func (g *srvGen) opTear() error {
 var focusWeights = map[string][]int{
 	"C01": {70, 6, 8, 2, 1, 3, 3, 1, 1, 1, 1, 1},
 	"C02": {75, 5, 6, 2, 1, 4, 3, 0, 0, 0, 1, 1},
-	"C03": {30, 6, 14, 8, 5, 22, 2, 0, 0, 0, 6, 4},
-	"C04": {30, 14, 10, 4, 18, 6, 3, 2, 2, 3, 2, 3},
+	"C03": {30, 6, 14, 8, 5, 22, 2, 0, 0, 0, 6, 4, 0, 1},
+	"C04": {30, 14, 10, 4, 18, 6, 3, 2, 2, 3, 2, 3, 0, 1},
 	"C06": {20, 45, 4, 1, 8, 4, 6, 1, 1, 2, 1, 1},
 	"C07": {6, 25, 2, 0, 12, 1, 2, 10, 8, 30, 0, 0},
 	"C12": {35, 10, 14, 5, 4, 10, 6, 6, 5, 3, 1, 1},
